@@ -440,7 +440,10 @@ class Process(metaclass=abc.ABCMeta):
         Args:
             override: The schema override to add.
         """
-        deep_merge(self._schema_override, override)
+        # a copy: deep_merge inserts nested dictionaries by reference,
+        # and an override handed to several processes (or kept by the
+        # composer) must not become shared state between them
+        deep_merge(self._schema_override, copy.deepcopy(override))
 
     def ports(self) -> Dict[str, List[str]]:
         """Get ports and each port's variables.
